@@ -313,6 +313,61 @@ def view (id : Ident) (h : Heap) : M (Nat × List Byte) := do
   pure (id.charset, d)
 
 
+/- ---------- node/node_locate.c, node_next.c: searching a node list by name ---------- -/
+
+/-- the name test of `mpt_node_locate` for the default identifier type (`charset < 0`: UTF8 text, `idlen = len + 1`):
+    `idlen == clen && !cid[len] && (!len || !memcmp(ident, cid, len))` -/
+def locateMatch (id : Ident) (h : Heap) (ident : List Byte) : M Bool :=
+  if id.charset ≠ 1 then pure false
+  else if ident.length + 1 ≠ id.len then pure false
+  else do
+    let cid ← readData id h id.len
+    pure (cid[ident.length]? == some 0 && (ident.length == 0 || cid.take ident.length == ident))
+
+/-- walk a list of identifiers (`i` = index of its head): index of the `pos`-th one that matches (`pos >= 1`) -/
+def locateWalk (h : Heap) (ident : List Byte) (step : Int) : List Ident → Nat → Int → M (Option Int)
+  | [], _, _ => pure none
+  | id :: rest, pos, i => do
+    if ← locateMatch id h ident then
+      if pos ≤ 1 then pure (some i) else locateWalk h ident step rest (pos - 1) (i + step)
+    else locateWalk h ident step rest pos (i + step)
+
+/-- `mpt_node_locate(nodes[start], pos, ident, len, -1)` on the list `nodes`: index of the node found -/
+def locate (nodes : List Ident) (h : Heap) (start : Nat) (pos : Int) (ident : List Byte) : M (Option Int) :=
+  if start ≥ nodes.length then pure none
+  else if pos > 0 then
+    -- positive offset, start with current
+    locateWalk h ident 1 (nodes.drop start) pos.toNat start
+  else if pos = 0 then do
+    -- simple end search, check final for match; else the previous one
+    let last := nodes.length - 1
+    match nodes[last]? with
+    | none => pure none
+    | some id =>
+      if ← locateMatch id h ident then pure (some (last : Int))
+      else locateWalk h ident (-1) (nodes.take last).reverse 1 ((last : Int) - 1)
+  else
+    -- negative offset, start with previous
+    locateWalk h ident (-1) (nodes.take start).reverse (-pos).toNat ((start : Int) - 1)
+
+/-- the name test of `mpt_node_next`: `idlen == clen && charset == UTF8 && (!idlen || !memcmp(ident, cid, idlen - 1))`;
+    `ident` is the caller's C string buffer (terminated) or the zero pointer -/
+def nextMatch (id : Ident) (h : Heap) (ident : Option (List Byte)) : M Bool :=
+  let idlen := match ident with
+    | some b => strlen b + 1
+    | none => 0
+  if idlen ≠ id.len ∨ id.charset ≠ 1 then pure false
+  else if idlen = 0 then pure true
+  else do
+    let cid ← readData id h id.len
+    pure (cid.take (idlen - 1) == (ident.getD []).take (idlen - 1))
+
+/-- `mpt_node_next(nodes[start], ident)`: first node from `start` on whose name matches -/
+def nodeNext (h : Heap) (ident : Option (List Byte)) : List Ident → Nat → M (Option Nat)
+  | [], _ => pure none
+  | id :: rest, i => do
+    if ← nextMatch id h ident then pure (some i) else nodeNext h ident rest (i + 1)
+
 /- ---------- a system of identifiers sharing one heap (what the driver and the histories run on) ---------- -/
 
 /-- slots of identifiers (dead slots are `none`; slot number = owner tag of its allocations) and the heap -/
